@@ -527,6 +527,7 @@ class Harness:
         self.minimal: dict[str, list[tuple[list[Op], str]]] = {}
         self.min_budget = 60
         self._pat_fails: dict[tuple[str, str], bool] = {}
+        self.diag = False
         self.full_twin = False
         self.last_loader: Any = None
         self.last_model: ref.RefLRU | None = None
@@ -597,9 +598,13 @@ class Harness:
     # -- one history ----------------------------------------------------------
     def run_history(
         self, cfg: dict[str, Any], ops: list[Op] | tuple[Op, ...], *, record: bool,
-        trace: list[str] | None = None,
+        trace: list[str] | None = None, diag: bool = False,
     ) -> Divergence | None:
-        """Execute *ops* on a fresh caching loader; return the first divergence."""
+        """Execute *ops* on a fresh caching loader; return the first divergence.
+
+        diag=True (never used for the verdict, only to name the mechanism of a divergence
+        already observed) additionally compares the real cache's key set with the
+        reference's after every step and reports a key-derivation disagreement."""
         ctx = self.ctx
         family = cfg["family"]
         cap = cfg["cap"]
@@ -704,6 +709,17 @@ class Harness:
                 saw_miss = True
             if record:
                 ctx.count("ev:" + ev)
+            if diag:
+                rk = {str(x) for x in loader.cache.keys()}
+                mk = set(model.od)
+                if rk != mk:
+                    rc = _key_disagreement(rk - mk, mk - rk)
+                    if rc is not None:
+                        return Divergence(
+                            i, rc, f"after {ref.show_op(op)} the cache holds {sorted(rk)} "
+                                   f"where the reference holds {sorted(mk)}",
+                            {"step": i, "op": ref.show_op(op), "real_cache_keys": sorted(rk),
+                             "model_keys": sorted(mk)})
             if clen > cap:
                 return Divergence(i, "capacity-exceeded",
                                   f"len(loader.cache)={clen} > capacity={cap}", {
@@ -779,7 +795,7 @@ class Harness:
         if not ops or ops[-1].kind != "load":
             return None
         self.ctx.count("minimiser_runs")
-        d = self.run_history(cfg, ops, record=False)
+        d = self.run_history(cfg, ops, record=False, diag=self.diag)
         if d is not None and d.step == len(ops) - 1:
             return d.category
         return None
@@ -815,6 +831,26 @@ class Harness:
         ctx = self.ctx
         hist = list(ops[: d.step + 1])
         cat = d.category
+        symptom = ""
+        d_step = d.step
+        self.diag = False
+        if not cat.startswith("capacity"):
+            # diagnostic pass: did the cache key derivation disagree before the symptom?
+            d0 = self.run_history(cfg, hist, record=False, diag=True)
+            if d0 is not None and d0.category.startswith("cache-key-") and d0.step < d.step:
+                symptom = f"; first visible symptom at step {d.step}: {d.category}: {d.what}"
+                d = d0
+                cat = d0.category
+                hist = hist[: d0.step + 1]
+                self.diag = True
+        try:
+            return self._report(cfg, hist, d, cat, origin, symptom, list(ops[: d_step + 1]))
+        finally:
+            self.diag = False
+
+    def _report(self, cfg: dict[str, Any], hist: list[Op], d: Divergence, cat: str,
+                origin: str, symptom: str, full: list[Op]) -> str:
+        ctx = self.ctx
         known = self.minimal.setdefault(cat, [])
         key = None
         small: list[Op] | None = None
@@ -852,7 +888,7 @@ class Harness:
         d2 = d
         if small != hist:
             tr: list[str] = []
-            d2 = self.run_history(cfg, small, record=False, trace=tr) or d
+            d2 = self.run_history(cfg, small, record=False, trace=tr, diag=self.diag) or d
         wit = {
             "kind": "history", "cfg": dict(cfg), "ops": [o.j() for o in small],
             "readable": [ref.show_op(o) for o in small], "at": d2.view,
@@ -860,8 +896,24 @@ class Harness:
         }
         if small != hist and len(hist) <= 8:
             wit["minimised_from"] = [ref.show_op(o) for o in hist]
-        ctx.violation(key, f"[{cfg_id(cfg)}] {d2.what}", wit)
+        if symptom:
+            # the key names the first disagreement about cache keys (diagnostic); the
+            # behavioural violation is the symptom history, which is what replay executes
+            wit["symptom"] = symptom[2:]
+            wit["symptom_ops"] = [o.j() for o in full]
+            wit["symptom_readable"] = [ref.show_op(o) for o in full]
+        ctx.violation(key, f"[{cfg_id(cfg)}] {d2.what}{symptom}", wit)
         return key
+
+
+def _key_disagreement(extra_real: set[str], extra_model: set[str]) -> str | None:
+    """Name a disagreement about how cache keys are derived (None: the key sets differ
+    for another reason, e.g. eviction order — the behavioural symptom names that)."""
+    if any(m.endswith("/" + r) for r in extra_real for m in extra_model):
+        return "cache-key-without-namespace"
+    if any(r.endswith("/" + m) for r in extra_real for m in extra_model):
+        return "cache-key-with-spurious-namespace"
+    return None
 
 
 def _short_now(now: tuple[Any, ...]) -> str:
@@ -1485,7 +1537,7 @@ def replay(wit: dict[str, Any], ctx: Ctx) -> None:
                     with_site=bool(wit["cfg"].get("site")) or wit.get("origin") == "random")
         try:
             cfg = dict(wit["cfg"])
-            ops = [ref.op_from(j) for j in wit["ops"]]
+            ops = [ref.op_from(j) for j in (wit.get("symptom_ops") or wit["ops"])]
             tr: list[str] = []
             d = h.run_history(cfg, ops, record=True, trace=tr)
             print(f"replay C14 [{cfg_id(cfg)}]")
